@@ -15,11 +15,16 @@ let rec int_of_nat = function O -> 0 | S m -> 1 + int_of_nat m
 
 let vn v = "v" ^ string_of_int (int_of_z v)
 let bn b = "b" ^ string_of_int (int_of_z b)
+let codes s = List.init (String.length s) (fun i -> nat_of_int (Char.code s.[i]))
+let text l = String.concat "" (List.map (fun c -> String.make 1 (Char.chr (int_of_nat c))) l)
+(* label text from the model's table of prefixes and widths (col_label); names default to v<i> / b<j> *)
+let vnames : (int * string) list ref = ref []
+let bnames : (int * string) list ref = ref []
+let vname v = codes (try List.assoc (int_of_z v) !vnames with Not_found -> vn v)
+let bname b = codes (try List.assoc (int_of_z b) !bnames with Not_found -> bn b)
 let col_s = function
-  | CVal v -> vn v | CExt v -> "r_" ^ vn v | CVel v -> "v_" ^ vn v | CVelExt v -> "vr_" ^ vn v
-  | CEp v -> "Ep_" ^ vn v | CEk v -> "Ek_" ^ vn v | CFt v -> "ft_" ^ vn v | CFa v -> "fa_" ^ vn v
-  | CBiasE b -> "E_" ^ bn b | CCenter (_, v) -> "x0_" ^ vn v | CWork b -> "W_" ^ bn b
-  | CRef (_, v) -> "ref_" ^ vn v | CCoupling (b, v) -> "ForceConst@" ^ bn b ^ "@" ^ vn v | CGrad (_, v) -> "Grad_" ^ vn v
+  | CCoupling (b, v) -> "ForceConst@" ^ bn b ^ "@" ^ vn v     (* followed by the index of the variable in the bias *)
+  | c -> text (col_label vname bname c)
 let src_s = function
   | SX v -> "x:" ^ vn v | SXrep v -> "xrep:" ^ vn v | SVfd v -> "vfd:" ^ vn v | SVrep v -> "vrep:" ^ vn v
   | SEp v -> "ep:" ^ vn v | SEk v -> "ek:" ^ vn v | SFt v -> "ft:" ^ vn v | SFa v -> "fa:" ^ vn v
@@ -60,7 +65,14 @@ let () =
                 bf_chg_k = d; bf_acc_work = e; bf_coupling = f; bf_grad = g }) in
           { c_vars = vars; c_biases = biases } in
         (match w.(0) with
-         | "TRAJ" ->
+         | "TRAJ" | "TRAJN" ->
+           vnames := []; bnames := [];
+           if w.(0) = "TRAJN" then begin
+             let nvn = ni () in
+             vnames := List.init nvn (fun _ -> let i = ni () in let s = next () in (i, s));
+             let nbn = ni () in
+             bnames := List.init nbn (fun _ -> let i = ni () in let s = next () in (i, s))
+           end;
            let freq = nz () in
            let c0 = cfg () in
            let nev = ni () in
@@ -90,10 +102,9 @@ let () =
          | "LABEL" ->
            (* LABEL width prefix|- name : characters as they are *)
            let width = nn () in let pre = next () in let name = next () in
-           let codes s = List.init (String.length s) (fun i -> nat_of_int (Char.code s.[i])) in
            let pre = if pre = "-" then "" else pre in
            let tok = label_token (codes pre) (codes name) width in
-           Printf.printf "%s\n" (String.concat "" (List.map (fun c -> String.make 1 (Char.chr (int_of_nat c))) tok))
+           Printf.printf "%s\n" (text tok)
          | "ABFHIST" ->
            let hf = nz () in let n = ni () in
            let w = List.init n (fun _ -> nz ()) in
